@@ -302,8 +302,6 @@ func (g *Graph) removeLine(fid, tid, id int64) {
 	if len(g.to[tid][fid]) == 0 {
 		delete(g.to[tid], fid)
 	}
-
-	g.ids.Release(id)
 }
 
 // removeNode removes the node with the given ID from the graph, as well as
